@@ -817,3 +817,115 @@ def t_flags_join(facts, res, tier):
                      "%s assigns flag knowledge right after a label without emitting an instruction that establishes it (`%s`): the label is also reached "
                      "by branches taken with other flags (for `if (a && b) .. else ..` the else label is reached from the test of a and from the test of b), "
                      "so code after it that relies on the knowledge omits a needed load or compare" % (fn["name"], txt[:60]))
+
+
+# ----------------------------------------------------------------------------- C01 / C18 (two-pass evaluation)
+
+SIDE_EFFECT_CALLEES = {"generate_function_call": "calls the function (JSR or inline expansion)",
+                       "generate_plusplus": "increments / decrements the operand"}
+
+
+@rule("T-SECOND-PASS", floor=5,
+      text="a 16-bit expression is evaluated twice, once per byte (generate_expr with second_time = true for the high byte).  Whatever has an "
+           "effect on the program's state - calling a function, a pre-increment/decrement, queueing a post-increment/decrement - is emitted in "
+           "the first pass only: on every path of generate_expr that reaches such an emission `second_time` is known to be false")
+def t_second_pass(facts, res, tier):
+    import genmodel
+    from walker import Sym
+    fn = facts.fn("generate_expr", genmodel.GEN_QUAL)
+    if not any(p["name"].replace("mut ", "").strip() == "second_time" for p in fn["params"]):
+        raise AnchorMissing("generate_expr has no `second_time` parameter")
+    found = {}
+    for kind, val, st in genmodel.fn_paths(facts, fn):
+        d = genmodel.domain_of(st, Sym("second_time", "bool"), facts, universe=[True, False])
+        may_second = d is None or True in d
+        for ev in st.events:
+            what = None
+            if ev["kind"] == "call" and ev["callee"] in SIDE_EFFECT_CALLEES:
+                what = ev["callee"]
+            elif ev["kind"] == "fieldpush" and ev.get("field") == "deferred_plusplus":
+                what = "deferred_plusplus.push"
+            if what is None:
+                continue
+            variant = None
+            a, e = st.cons.get("expr", (None, frozenset()))
+            variant = "|".join(sorted(a)) if a else "*"
+            key = "T-SECOND-PASS:%s:%s" % (what, variant)
+            cur = found.setdefault(key, {"bad": None, "paths": 0})
+            cur["paths"] += 1
+            if may_second and cur["bad"] is None:
+                cur["bad"] = ev
+    for key, d in sorted(found.items()):
+        res.inst(key, True, {"paths": d["paths"]})
+        if d["bad"] is not None:
+            what = key.split(":")[1]
+            res.fail(key, facts.where(fn, d["bad"]["node"]),
+                     "generate_expr reaches %s (%s) on a path where `second_time` may be true: in the high-byte pass of a 16-bit expression the effect is "
+                     "emitted a second time (`short s; s = f();` calls f twice and stores the second result in the high byte)" % (
+                         what, SIDE_EFFECT_CALLEES.get(what, "queues a post-increment/decrement")))
+
+
+# ----------------------------------------------------------------------------- C13 (user labels and goto)
+
+
+@rule("T-GOTO-LABELS", floor=3,
+      text="user labels and goto: (a) a goto is emitted only for a label the function defines (the emitting code consults the function's labels), "
+           "(b) a user label is defined once per function (the emitting code records it and rejects a repetition), (c) the spelling of user "
+           "labels in the output cannot coincide with a label the generator makes up (`.for1`, `.ifend2`, `.endofinline`...)")
+def t_goto_labels(facts, res, tier):
+    import genmodel
+    from walker import Fmt, EnumV, Sym
+    user_tmpl = None
+    goto_fn = goto_node = None
+    label_fn = label_node = None
+    generated = set()
+    for fn in genmodel.gen_fns(facts):
+        if fn["name"] == "new":
+            continue
+        try:
+            paths = genmodel.fn_paths(facts, fn)
+        except Exception:
+            continue
+        for kind, val, st in paths:
+            for ev in st.events:
+                if ev["kind"] == "label" and ev["args"] and isinstance(ev["args"][0], Fmt):
+                    t = ev["args"][0].template
+                    if re.match(r"^\.?\{\}$", t):
+                        user_tmpl = t
+                        label_fn, label_node = fn, ev["node"]
+                    else:
+                        generated.add(t)
+                if ev["kind"] == "asm" and len(ev["args"]) > 1 and isinstance(ev["args"][0], EnumV) and ev["args"][0].variant == "JMP":
+                    op = ev["args"][1]
+                    if isinstance(op, EnumV) and op.variant == "Label" and op.payload and isinstance(op.payload[0], Fmt) and re.match(r"^\.?\{\}$", op.payload[0].template):
+                        a0 = op.payload[0].args[0] if op.payload[0].args else None
+                        if isinstance(a0, Sym) and a0.key in [p["name"] for p in fn["params"]]:
+                            goto_fn, goto_node = fn, ev["node"]
+    if goto_fn is None or label_fn is None:
+        raise AnchorMissing("user label definition or goto emission not found (label_fn=%s goto_fn=%s)" % (label_fn and label_fn["name"], goto_fn and goto_fn["name"]))
+
+    def consults_labels(fn, want_insert):
+        for n in walk(fn["body"]):
+            if n.get("k") == "mcall" and n["method"] in (("insert",) if want_insert else ("contains", "contains_key", "get", "iter", "any")):
+                t = norm(n["recv"])
+                if "label" in t.lower():
+                    return True
+        return False
+
+    key = "T-GOTO-LABELS:goto:target-defined"
+    res.inst(key, True, {"emitted_by": goto_fn["name"]})
+    if not consults_labels(goto_fn, False):
+        res.fail(key, facts.where(goto_fn, goto_node),
+                 "%s emits `JMP .<name>` for a goto without looking the name up among the labels of the function: `goto nowhere;` is accepted and the assembler is handed an undefined symbol" % goto_fn["name"])
+    key = "T-GOTO-LABELS:label:defined-once"
+    res.inst(key, True, {"emitted_by": label_fn["name"]})
+    if not consults_labels(label_fn, True):
+        res.fail(key, facts.where(label_fn, label_node),
+                 "%s emits a user label without recording it: the same label written twice in a function is emitted twice" % label_fn["name"])
+    key = "T-GOTO-LABELS:label:namespace"
+    clash = sorted(t for t in generated if re.match(r"^\.[A-Za-z_][A-Za-z0-9_]*\{\}$", t) or re.match(r"^\.[A-Za-z_][A-Za-z0-9_]*$", t))
+    res.inst(key, True, {"user_template": user_tmpl, "generated_templates": len(generated)})
+    if clash and re.match(r"^\.?\{\}$", user_tmpl or ""):
+        res.fail(key, facts.where(label_fn, label_node),
+                 "user labels are written as `%s` and the generator's own labels as %s ...: a user label spelled like one of them (`for1:`) is defined twice or captures the generator's branches" % (
+                     user_tmpl, ", ".join("`%s`" % c.replace("{}", "<n>") for c in clash[:4])))
